@@ -214,6 +214,29 @@ class Run:
             if isinstance(e.func, ast.Name) and e.func.id in ("bool", "list", "tuple") and len(e.args) == 1:
                 v = self.ev(e.args[0])
                 return bool(v) if e.func.id == "bool" else (list(v) if e.func.id == "list" else tuple(v))
+            if isinstance(e.func, ast.Name) and e.func.id in ("enumerate", "reversed", "range", "sorted") and not e.keywords and e.func.id not in self.env:
+                args = [self.ev(a) for a in e.args]
+                if e.func.id == "range" and all(isinstance(a, int) for a in args) and 1 <= len(args) <= 3:
+                    return list(range(*args))
+                if len(args) == 1 and isinstance(args[0], (list, tuple)):
+                    return {"enumerate": lambda x: [(i, y) for i, y in enumerate(x)], "reversed": lambda x: list(reversed(x)), "sorted": sorted}[e.func.id](args[0]) if e.func.id != "range" else None
+                raise Unsupported(f"call {norm(e)[:50]}")
+            if isinstance(e.func, ast.Attribute) and e.func.attr in ("pop", "popleft") and len(e.args) <= 1 and not e.keywords and not any(isinstance(x, ast.Call) for x in ast.walk(e.func.value)):
+                try:
+                    base = self.ev(e.func.value)
+                except Unsupported:
+                    base = None
+                if isinstance(base, list):
+                    if not base:
+                        raise PyExc("IndexError")
+                    if e.func.attr == "popleft":
+                        return base.pop(0)
+                    if e.args:
+                        i = self.ev(e.args[0])
+                        if not isinstance(i, int) or not -len(base) <= i < len(base):
+                            raise PyExc("IndexError")
+                        return base.pop(i)
+                    return base.pop()
             if isinstance(e.func, ast.Attribute) and e.func.attr in ("values", "keys", "items") and not e.args:
                 base = self.ev(e.func.value)
                 if isinstance(base, dict):
@@ -270,6 +293,21 @@ class Run:
             raise Unsupported(f"call {norm(e)[:50]}")
         if isinstance(e, ast.IfExp):
             return self.ev(e.body) if self.ev(e.test) else self.ev(e.orelse)
+        if isinstance(e, (ast.GeneratorExp, ast.ListComp)) and len(e.generators) == 1 and not e.generators[0].is_async:
+            g = e.generators[0]
+            out_ = []
+            saved = dict(self.env)
+            for item in list(self.ev(g.iter)):
+                self.assign(g.target, item)
+                if all(self.ev(c) for c in g.ifs):
+                    out_.append(self.ev(e.elt))
+            # comprehension variables do not leak
+            for k in [t.id for t in ast.walk(g.target) if isinstance(t, ast.Name)]:
+                if k in saved:
+                    self.env[k] = saved[k]
+                else:
+                    self.env.pop(k, None)
+            return out_
         raise Unsupported(f"expression {norm(e)[:50]}")
 
     def assign(self, t: ast.AST, v: Any) -> None:
